@@ -538,10 +538,13 @@ class SubscriptionsManagerBase:
             # this is an error related to the document, it cannot be sent to any subscriber => re-raise
             self._logger.error('Invalid Document: {!r}\n{}', ex, etree.tostring(body_node))  # noqa: PLE1205, TRY400
             raise
-        except Exception:
-            # this should never happen! => re-raise
+        except OSError as ex:
+            # any other error related to the connection (unresolvable host name, unreachable network, tls error, ...)
+            self._logger.error('could not send notification report error= {!r}: {}', ex, subscription)  # noqa: PLE1205, TRY400
+        except Exception:  # noqa: BLE001
+            # A problem with this one subscriber (e.g. an answer that cannot be read). The subscription has counted
+            # the error; the other subscribers and the following reports of the transaction must still be served.
             self._logger.exception('could not send notification report for subscription: {}', subscription)  # noqa: PLE1205
-            raise
 
     def _get_subscriptions_for_action(self, action: str) -> list[Any]:
         with self._subscriptions.lock:
